@@ -178,11 +178,14 @@ def tt(t):
 
 
 class Case:
-    __slots__ = ('fn', 'args', 'expected', 'kind', 'coq')
+    __slots__ = ('fn', 'args', 'expected', 'kind', 'coq', 'call', 'prefix', 'note')
 
-    def __init__(self, fn, args):
+    def __init__(self, fn, args, call=None, prefix='', note=None):
         self.fn = fn
         self.args = args
+        self.call = call        # optional callable standing for the implementation (bound method with keyword binding)
+        self.prefix = prefix    # Coq terms of the leading instance-attribute parameters
+        self.note = note
 
 
 def run_impl(fns, cases):
@@ -194,8 +197,11 @@ def run_impl(fns, cases):
     out = []
     for c in cases:
         f = fns[c.fn]
-        mod = importlib.import_module(f['module'])
-        pyf = getattr(mod, f['py_name'])
+        if getattr(c, 'call', None) is not None:
+            pyf = c.call
+        else:
+            mod = importlib.import_module(f['module'])
+            pyf = getattr(mod, f['py_name'])
         params = [(p, tt(t)) for p, t in f['params']]
         ret = tt(f['ret_ty'])
         pyargs = [to_py(a, t) for a, (_, t) in zip(c.args, params)]
@@ -225,7 +231,7 @@ def run_impl(fns, cases):
                 nm = 'TypeError'
             c.kind = nm if nm in EXN else 'Other:' + nm
             c.expected = None
-        call = f['name'] + ' ' + ' '.join(enc(a, t) for a, (_, t) in zip(c.args, params))
+        call = f['name'] + ' ' + (getattr(c, 'prefix', '') or '') + ' ' + ' '.join(enc(a, t) for a, (_, t) in zip(c.args, params))
         if is_arr:
             rnd = 'render (%d, %d, %d)%%Z' % tuple(sh0)
             call = ('res_map (%s) (%s)' % (rnd, call)) if f['raises'] else ('%s (%s)' % (rnd, call))
